@@ -54,9 +54,3 @@ Fixpoint heap_of_groups (gs : list (list N)) : heap :=
    (boxes + edges), which the default fuel of Collect.v covers *)
 Definition run_snapshot_w (s : string) : string :=
   show_survivors_opt (survivors_opt snap_marks snap_bb snap_bm (heap_of_groups (parse_nss s))).
-
-(* the same heap under "retain exactly the mark-closure of the rooted boxes" (the Spec of one collection) *)
-Definition run_snapshot_spec_w (s : string) : string :=
-  let h := heap_of_groups (parse_nss s) in
-  let cl := closure_marks snap_marks h in
-  show_survivors (filter (fun a => mem_addr a cl) (addrs h)).
